@@ -208,4 +208,19 @@ PROPS = {
         "quick": {"budget_s": 60, "chunk": 25},
         "thorough": {"budget_s": 600, "chunk": 25, "minimise_s": 60},
     },
+    "C01": {
+        "test": "TestC01",
+        "level": "exploration",
+        "world": "B: issuer/holder node and verifier node, real issuer, wallet, verifier, status list and did:web resolution over the simulated HTTP transport",
+        "rule": "each run: one credential (JSON-LD or JWT, with or without expiration, with or without status list) and 4-9 seeded events on the virtual clock: verify on "
+                "the other node, verify an in-transit mutation (14 JSON-LD and 9 JWT semantic operators: claim, id, issuer, subject, dates, status reference, proof "
+                "options, JWT header and claims), clock advance, advance past expiry, revoke, deactivate the issuer, present (wallet builds a presentation, the other "
+                "node verifies it), mutated presentation, presentation signed by a non-subject. The model tracks the validity window, what the verifier can know about "
+                "the revocation (its downloads are observed at the transport) and whether the issuer is active. Distinct = distinct decision hashes; 'measurements' counts each operator.",
+        "invariants": ["C01.verdict", "C01.tamper", "C01.roundtrip"],
+        "assumptions": ["the universal quantifier over all mutations of all members is a pure-input statement and not claimed; tampering is a fixed operator set applied as an in-transit fault",
+                        "did:web issuers; trust configuration (did:nuts) and key removal are not driven; verification within 6 s of the expiry instant is not judged (allowed skew)"],
+        "quick": {"budget_s": 75, "chunk": 15},
+        "thorough": {"budget_s": 900, "chunk": 15, "minimise_s": 90},
+    },
 }
